@@ -383,6 +383,42 @@ class Raw(Call):
         return [(z3.BoolVal(True), self.classes)], w._copy(pre)
 
 
+class After(Call):
+    """second call issued on the same instance right after a read-only first call (whose outcome is ignored):
+    the second call must behave exactly as if it were the only one"""
+
+    def __init__(self, first, second):
+        assert first.readonly
+        self.first, self.second = first, second
+        self.label = "%s ; then %s" % (first.label, second.label)
+        self.roles = "%s after a %s on the same instance" % (second.roles, first.roles)
+        self.readonly, self.rejected, self.needs = second.readonly, second.rejected, second.needs
+        for a in ("i", "k", "j", "f"):
+            if hasattr(second, a):
+                setattr(self, a, getattr(second, a))
+
+    def run(self, w, s):
+        try:
+            self.first.run(w, s)
+        except symfs.Crash:
+            raise
+        except Exception:   # noqa
+            pass
+        return self.second.run(w, s)
+
+    def model(self, w, pre):
+        return self.second.model(w, pre)
+
+    def check_value(self, w, ps, val, res):
+        return self.second.check_value(w, ps, val, res)
+
+    def relation(self, w, vals):
+        return self.second.relation(w, vals)
+
+    def after(self, w, s, res):
+        return self.second.after(w, s, res)
+
+
 def fresh_instance_equivalence(w, s, probe):
     """Run probe(w, instance) -> list of outcomes on the instance that just served a call and on a fresh instance over
     a copy of the same store; the results of the API must depend on the store only, not on the instance's past."""
@@ -463,7 +499,8 @@ def probed(call):
 
 # ---------------------------------------------------------------------------------------------- the step itself
 import re
-CONTAINED = re.compile(r"^/s/((objects|metadata|refs/(pids|cids))(/[0-9a-f]+)*(/[0-9a-f]+_delete)?|(objects|metadata|refs)/tmp(/tmp[0-9]+)?)$")
+CONTAINED = re.compile(r"^/s/((objects|metadata|refs/pids)(/[0-9a-f]+)*(/[0-9a-f]+_delete)?|"
+                       r"refs/cids(/[0-9a-fA-F]+)*(/[0-9a-fA-F]+_delete)?|(objects|metadata|refs)/tmp(/tmp[0-9]+)?)$")
 CALLV = z3.Int("call")
 OFFV = z3.Int("offset")
 
